@@ -1,7 +1,7 @@
 (* C13 - set_extension changes only the extension of the final component. *)
 From Coq Require Import List NArith Bool.
 Import ListNotations.
-From TP Require Import Core CoreProofs Path Unix Spec Utf8Proofs C11Proofs C13Proofs StdUnix StdSetExt.
+From TP Require Import Core CoreProofs Path Unix Spec Utf8Proofs C11Proofs C13Proofs StdUnix StdSetExt Win C13Win GenJoin WinSimple WinExtend C13WinComps C13WinVerb WinTrunc WinFileName.
 
 (* Unix, every buffer l and extension ext. *)
 (* a path without a file name: false, buffer untouched *)
@@ -53,8 +53,69 @@ Print Assumptions C13_unix_char_boundary.
 Theorem C13_std_bytes : forall buf ext : list N, s_set_extension buf ext = u_set_extension buf ext.
 Proof. exact set_extension_bytes. Qed.
 Print Assumptions C13_std_bytes.
-(* C13_windows_partial: the Windows instance (the same generic set_extension over the Windows back
-   parser) is not proved; it is decided on every explored case by oracle_c13 over the specification. *)
+(* Windows, at the level of bytes (C13Win.v): without a file name set_extension returns false and leaves the
+   buffer untouched; with a file name n it returns true and the buffer is everything before the name, the old
+   stem and (for a non-empty extension) a dot and the extension, for every prefix kind and whatever trails
+   the name *)
+Theorem C13_windows_none : forall l ext : list N, w_file_name l = None -> w_set_extension l ext = (l, false).
+Proof. exact w_set_extension_none. Qed.
+Theorem C13_windows_bytes : forall l n ext : list N, w_file_name l = Some n ->
+  exists before j, l = before ++ n ++ j /\ w_set_extension l ext = (before ++ new_name n ext, true).
+Proof. exact w_set_extension_bytes. Qed.
+Print Assumptions C13_windows_none.
+Print Assumptions C13_windows_bytes.
+(* Windows, read back at the level of components (C13WinComps.v): the old components with the last replaced by
+   the new name -- for prefix-free paths and for paths with a UNC, device-namespace or drive prefix (WinExtend.v:
+   such a prefix is read the same way whatever follows it).  The core is generic in the separator test. *)
+Theorem C13_windows_components_plain : forall l n ext : list N, noprefix l = true -> w_file_name l = Some n ->
+  gn (wsep true) (new_name n ext) ->
+  wspec (fst (w_set_extension l ext)) = removelast (wspec l) ++ [WC (Normal (new_name n ext))].
+Proof. exact w_set_extension_comps_plain. Qed.
+Theorem C13_windows_components_prefixed : forall (l : list N) (k : wprefix) (r n ext : list N),
+  wprefix_grammar l = Some (k, r) -> k_verbatim k = false -> w_file_name l = Some n ->
+  gn (wsep true) (new_name n ext) ->
+  wspec (fst (w_set_extension l ext)) = removelast (wspec l) ++ [WC (Normal (new_name n ext))].
+Proof. exact w_set_extension_comps_prefixed. Qed.
+(* the hypothesis on the new name holds for every separator-free extension outside the class D13 *)
+Theorem C13_windows_new_name_ok : forall l p r n ext : list N, wview l p r -> w_file_name l = Some n ->
+  nosep (wsep true) ext = true -> ~ (ext = [] /\ (stem_of n = [46] \/ stem_of n = [46; 46])) ->
+  gn (wsep true) (new_name n ext).
+Proof. exact w_new_name_ok. Qed.
+Print Assumptions C13_windows_components_plain.
+Print Assumptions C13_windows_components_prefixed.
+Print Assumptions C13_windows_new_name_ok.
+Example C13_windows_example :
+  wprefix_grammar [92;92;115;92;104;92;102;46;116;92] = Some (UNC [115] [104], [92;102;46;116;92])      (* \\s\h\f.t\ *)
+  /\ w_file_name [92;92;115;92;104;92;102;46;116;92] = Some [102;46;116]
+  /\ w_set_extension [92;92;115;92;104;92;102;46;116;92] [114;115] = ([92;92;115;92;104;92;102;46;114;115], true).
+Proof. vm_compute. repeat split. Qed.
+(* ... and for paths with a VERBATIM prefix other than the one named "UNC" (C13WinVerb.v: the same generic core for
+   either setting of the normalisation flag -- under exactly \\?\ only '\' separates and "." is a component) *)
+Theorem C13_windows_components_verbatim : forall (l : list N) (k : wprefix) (r n ext : list N),
+  wprefix_grammar l = Some (k, r) -> k_verbatim k = true -> k <> Verbatim [85; 78; 67] ->
+  w_file_name l = Some n -> gn (s_wsep (s_norm l)) (new_name n ext) ->
+  wspec (fst (w_set_extension l ext)) = removelast (wspec l) ++ [WC (Normal (new_name n ext))].
+Proof. exact w_set_extension_comps_verbatim. Qed.
+Theorem C13_new_name_ok_any_separator : forall (is_sep : N -> bool) (n ext : list N), is_sep 46 = false ->
+  nosep is_sep n = true -> n <> [] -> nosep is_sep ext = true ->
+  ~ (ext = [] /\ (stem_of n = [46] \/ stem_of n = [46; 46])) -> gn is_sep (new_name n ext).
+Proof. exact gn_new_name_gen. Qed.
+Print Assumptions C13_windows_components_verbatim.
+Print Assumptions C13_new_name_ok_any_separator.
+Example C13_windows_verbatim_example :
+  wprefix_grammar [92;92;63;92;67;58;92;97;47;98;46;116] = Some (VerbatimDisk 67, [92;97;47;98;46;116])    (* \\?\C:\a/b.t *)
+  /\ w_file_name [92;92;63;92;67;58;92;97;47;98;46;116] = Some [97;47;98;46;116]                              (* a/b.t is ONE name *)
+  /\ w_set_extension [92;92;63;92;67;58;92;97;47;98;46;116] [114] = ([92;92;63;92;67;58;92;97;47;98;46;114], true).
+Proof. vm_compute. repeat split. Qed.
+(* hence, in all three cases, the file name of the result is the new name and its parent, read again, has the
+   components of the old parent: "changes only the extension of the final component" *)
+Theorem C13_windows_file_name_parent : forall l l' m : list N,
+  wspec l' = removelast (wspec l) ++ [WC (Normal m)] ->
+  w_file_name l' = Some m /\
+  (forall r r', w_parent l = Some r -> w_parent l' = Some r' -> wspec r' = wspec r).
+Proof. exact w_replaced_last. Qed.
+Print Assumptions C13_windows_file_name_parent.
+(* C13_windows_components_partial: only the verbatim prefix named "UNC" (finding D17) is left to oracle_c13. *)
 
 Example C13_example :
   u_set_extension [102;111;111;46;116;120;116;47] [114;115] = ([102;111;111;46;114;115], true)
